@@ -85,7 +85,7 @@ def test_float(count):
 
 def test_strmethods(count):
     rnd = random.Random(2)
-    alpha = list(" \t\n\x0b\x0c\r\x1c\x1f\x85\xa0abzAZ09_-+.,;=()<>{}'\"*/#ßµİſKÀÿ٠１")
+    alpha = list(" \t\n\x0b\x0c\r\r\n\x1c\x1d\x1e\x1f\x85\u2028\u2029\xa0abzAZ09_-+.,;=()<>{}'\"*/#ßµİſKÀÿ٠１")
     samples = [""] + ["".join(rnd.choice(alpha) for _ in range(rnd.randint(1, 6))) for _ in range(int(700 * SCALE))]
     ops = [
         ("casefold", lambda s: s.casefold()), ("lower", lambda s: s.lower()), ("upper", lambda s: s.upper()),
@@ -95,6 +95,7 @@ def test_strmethods(count):
         ("replace", lambda s: s.replace("\t", "    ")), ("replace1", lambda s: s.replace("\n", " ")),
         ("replace_count1", lambda s: s.replace(".", "", 1)), ("replace_count2", lambda s: s.replace("a", "bb", 2)),
         ("replace_count0", lambda s: s.replace(" ", "_", 0)),
+        ("splitlines", lambda s: s.splitlines()), ("splitlines_keep", lambda s: s.splitlines(True)),
         ("partition", lambda s: list(s.partition("="))), ("rpartition", lambda s: list(s.rpartition("+"))),
         ("isalpha", lambda s: s.isalpha()), ("isdigit", lambda s: s.isdigit()), ("isprintable", lambda s: s.isprintable()),
         ("isspace", lambda s: s.isspace()), ("isalnum", lambda s: s.isalnum()),
